@@ -135,7 +135,7 @@ def run(ctx):
         return
     if drv is None:
         return
-    n = 150 if ctx.quick else 2500
+    n = 100 if ctx.quick else 2500
     if ctx.broken:
         n *= 4
     seed0 = ctx.seed * 1000003
@@ -174,6 +174,14 @@ def run(ctx):
         dist["modes"]["seq/asan"] = len(runs)
         for r in runs:
             _classify(ctx, r, "seq/asan", {}, dist, distinct, samples)
+    # fixed cases outside the token model (oracle / sanitizer verdict only): pooled-handle move assignment,
+    # BatchPageAllocator with its default batch size
+    if len(ctx.failing) + len(ctx.broken) <= 8:
+        for mode in ("handles", "batchdefault"):
+            runs = ctx.econc(seq, None, [mode], 1, 1)
+            dist["modes"][mode] = len(runs)
+            for r in runs:
+                _classify(ctx, r, mode, {}, dist, distinct, samples, lockstep=False)
     ctx.cov["distribution"] = dist
     ctx.cov["distinct_nontrivial"] = len(distinct)
     ctx.cov["traces_validated_against_impl"] = dist["replay_ok"]
@@ -193,8 +201,8 @@ def replay(ctx, path):
     exe, seq, log = _build()
     drv = ctx.driver("drv_C17")
     mode = tag.split("/")[0]
-    binary = seq if tag == "seq/asan" else exe
-    runs = ctx.econc(binary, drv, [mode], seed, 1, env=env)
+    binary = seq if tag in ("seq/asan", "handles", "batchdefault") else exe
+    runs = ctx.econc(binary, None if tag in ("handles", "batchdefault") else drv, [mode], seed, 1, env=env)
     r = runs[0]
     print("\n".join(r["lines"]))
     print("verdict:", r["verdict"], "replay:", r["replay"], "oracle:", r["oracle"], "races:", r["races"])
